@@ -23,6 +23,8 @@ int verif_nframes;
 using namespace UTAP;
 using namespace Constants;
 using std::vector;
+verif_typetext type_t::str() const { verif_typetext t; t.fmt = 50; return t; }
+verif_typetext type_t::declaration() const { verif_typetext t; t.fmt = 51; return t; }
 #include "expr_data.inc"
 namespace UTAP { inline bool verif_visit2(const verif_variant& a, const verif_variant& b) { return a.tag == b.tag; } }
 #include "expr_funcs.inc"
@@ -123,6 +125,22 @@ void w03d_print_constant(double v, int* log, int* nlog)
     std::ostream os; os.n = 0; g_os = &os;
     expression_t e = expression_t::create_double(v);
     e.print_constant_clause(os, false);
+    g_os = nullptr;
+    for (int i = 0; i < 40; i++) log[i] = i < os.n ? os.ev[i] : 0;
+    *nlog = os.n;
+}
+/* K4: a quantifier node forall / exists / sum (i : T) body - the binder is symbol 0 of a fresh frame, the body is role 3 */
+void w03b_print_quantifier(int kind, int* log, int* nlog)
+{
+    verif_nsyms = 0; verif_nframes = 0;
+    for (int i = 0; i < 8; i++) role_node[i] = nullptr;
+    frame_t f = frame_t::create(frame_t());
+    symbol_t bs = f.add_symbol(7, type_t::create_primitive(INT).create_prefix(CONSTANT), position_t());
+    expression_t id = expression_t::create_identifier(bs);
+    expression_t body = expression_t::create_identifier(symbol_t()); body.data->kind = GT; role_node[3] = body.data;
+    expression_t q = expression_t::create_binary((kind_t)kind, id, body);
+    std::ostream os; os.n = 0; g_os = &os;
+    q.print_quantifier_clauses(os, false);
     g_os = nullptr;
     for (int i = 0; i < 40; i++) log[i] = i < os.n ? os.ev[i] : 0;
     *nlog = os.n;
